@@ -39,6 +39,17 @@ const (
 
 var firstAtNames = [nFirstAt]string{"with-handshake", "0", "T/2", "T-10ms", "T+10ms", "2T"}
 
+// when the rest of the upload leaves
+const (
+	raBehind = iota // right behind the first chunk
+	raAfterT        // T+50ms
+	raDouble        // 2T
+	raQuad          // 4T
+	nRestAt
+)
+
+var restAtNames = [nRestAt]string{"behind-first", "T+50ms", "2T", "4T"}
+
 // close modes
 const (
 	cmClientFirst = iota // client half-closes after its data; target answers EOF with Extra more bytes, then closes
@@ -71,6 +82,10 @@ type connPlan struct {
 	// ViaDirect: in a chained case, route this connection (by its destination port) to the
 	// front instance's own direct client instead of the chain client.
 	ViaDirect bool `json:"via_direct,omitempty"`
+	// RestAt: when the upload after the first chunk (UpRest) leaves, relative to the end of the
+	// handshake: 0 = right behind the first chunk, else after the wait deadline has long passed
+	// (T+50ms, 2T, 4T): the connection is idle-open in between.
+	RestAt int `json:"rest_at,omitempty"`
 	// cmAbort only: who resets, and whether it waits until both sides have read everything
 	// (then the statistics must be exact) or resets as soon as the client has seen the first
 	// downlink byte and its own writes are done (bytes may be lost in flight).
@@ -175,6 +190,9 @@ func drawConn(rt *rapid.T, b int, unreachableOK bool) connPlan {
 	} else {
 		p.FirstLen = drawSize(rt, "first-len", b)
 		p.UpRest = drawChunks(rt, "up-rest", b, 2)
+		if len(p.UpRest) > 0 && rapid.Bool().Draw(rt, "rest-late") {
+			p.RestAt = rapid.IntRange(1, nRestAt-1).Draw(rt, "rest-at")
+		}
 	}
 	p.Down = drawChunks(rt, "down", b, 3)
 	p.SpeakFirst = rapid.Bool().Draw(rt, "speak-first")
@@ -341,5 +359,5 @@ func (c casePlan) classKey(p connPlan) string {
 	return fmt.Sprintf("%s>%s tfo=%v nowait=%v auth=%v buf=%d | %s at=%s first=%s rest=%d down=%d sf=%v %s extra=%s",
 		c.Server, c.Client, c.DialerTFO, c.DisableWait, c.Auth, c.bufSize(),
 		targetKindNames[p.Target], firstAtNames[p.FirstAt], sz(p.FirstLen), len(p.UpRest), len(p.Down), p.SpeakFirst, closeModeNames[p.Mode], sz(p.Extra)) +
-		fmt.Sprintf(" abort=%d/%v", p.AbortBy, p.AbortClean)
+		fmt.Sprintf(" abort=%d/%v rest-at=%s", p.AbortBy, p.AbortClean, restAtNames[p.RestAt])
 }
